@@ -1742,6 +1742,12 @@ int sm2_z256_point_equ(const SM2_Z256_POINT *P, const SM2_Z256_POINT *Q)
 	sm2_z256_t V1;
 	sm2_z256_t V2;
 
+	// the point at infinity (Z == 0, also the all-zero result of [0]P and P + (-P))
+	// only equals the point at infinity; the products below are all zero for it
+	if (sm2_z256_is_zero(P->Z) || sm2_z256_is_zero(Q->Z)) {
+		return (sm2_z256_is_zero(P->Z) && sm2_z256_is_zero(Q->Z)) ? 1 : 0;
+	}
+
 	// X1 * Z2^2 == X2 * Z1^2
 	sm2_z256_modp_mont_sqr(Z1, P->Z);
 	sm2_z256_modp_mont_sqr(Z2, Q->Z);
